@@ -41,6 +41,15 @@ NfSeq(k) == IF k = 4 THEN <<3, 4, 5>> ELSE <<3, 4, 5, 6>>
 NfRange(k) == {NfSeq(k)[m] : m \in 1..Len(NfSeq(k))}
 (* maximal variation index per singlet entry of the in-house N3LO (documented) *)
 EkoVarMax == [gg |-> 19, gq |-> 15, qg |-> 15, qq |-> 6]
+Min(a, b) == IF a < b THEN a ELSE b
+(* the n3lo_ad_variation tuple (gg, gq, qg, qq, nsp, nsm, nsv) a variation index stands for:   *)
+(* FHMRUVV: the same index for all seven functions; in-house set: the singlet entries, each     *)
+(* clipped to its documented range                                                             *)
+VarTuple(fl, var) ==
+  IF fl = "fhmruvv" THEN <<var, var, var, var, var, var, var>>
+  ELSE IF fl = "eko" THEN <<Min(var, EkoVarMax.gg), Min(var, EkoVarMax.gq), Min(var, EkoVarMax.qg),
+                            Min(var, EkoVarMax.qq), 0, 0, 0>>
+  ELSE <<0, 0, 0, 0, 0, 0, 0>>
 
 OmeVariants == {"us", "ps", "ut"}
 OmeMaxOrder(v) == CASE v = "us" -> 3 [] v = "ps" -> 2 [] v = "ut" -> 1
@@ -182,8 +191,9 @@ FhmruvvEntries == {"gg", "gq", "qg", "ps", "nsp", "nsm", "nsv"}
 C25MeanCells == {[law |-> "FhmruvvMean", v |-> "us", rule |-> e, k |-> 4, q |-> 0, nf |-> nf,
                   fl |-> "fhmruvv", var |-> 0, j |-> j] : e \in FhmruvvEntries, nf \in 3..5, j \in Pts}
 (* the harness is handed the rule itself and the nf values the scale is maximised over *)
-PlanC25 == {[cell |-> c, def |-> SumRule(c.v, c.rule), nfs |-> NfSeq(c.k)] : c \in {x \in C25RuleCells : C25RuleOk(x)}}
-           \cup {[cell |-> c, def |-> [at |-> 0], nfs |-> NfSeq(4)] : c \in C25MeanCells}
+PlanC25 == {[cell |-> c, def |-> SumRule(c.v, c.rule), nfs |-> NfSeq(c.k), vt |-> VarTuple(c.fl, c.var)] :
+              c \in {x \in C25RuleCells : C25RuleOk(x)}}
+           \cup {[cell |-> c, def |-> [at |-> 0], nfs |-> NfSeq(4), vt |-> VarTuple("-", 0)] : c \in C25MeanCells}
 
 C25Required(c) == IF c.law = "FhmruvvMean" THEN -500 ELSE AccExp(AccClass(c.v, c.k, c.q, c.fl))
 C25Verdict(cc, o) ==
